@@ -60,7 +60,7 @@ def oracle_C06(col):
     def f(T, pre, op, st, o):
         el = st.el
         exp = [st.made[i] for i in st.model]
-        key = [pre.names, opj(op)]
+        key = [pre.names, opj(op)] + ([] if el.xsd_check else ['unchecked'])
         r_ins = impl.call(lambda: list(el.get_children(ordered=False)))
         r_ord = impl.call(lambda: list(el.get_children(ordered=True)))
         col.stats['states_checked'] += 1
@@ -187,9 +187,18 @@ FACTORIES['collector'] = Collector
 def run_struct(pid, tier, oname, profiles, extra=None, min_guard=None):
     """profiles: list of (profile, quick budget, thorough budget)"""
     run_ = core.Run(pid, tier)
+    r1 = explore.r1_prepare()
     specs = []
     for T in impl.TYPES:
         for (prof, bq, bt) in profiles:
+            if prof == 'fwd':
+                fa = explore.forward_alphabet(T)
+                if fa:
+                    specs.append(explore.Spec(T, prof, bq if tier == 'quick' else bt, oname, sigma=fa))
+                continue
+            if prof.endswith('!unchecked'):
+                specs.append(explore.Spec(T, prof.split('!')[0], bq if tier == 'quick' else bt, oname, check=False))
+                continue
             specs.append(explore.Spec(T, prof, bq if tier == 'quick' else bt, oname))
     res = explore.run_bfs(specs, FACTORIES)
     tot = collections.Counter()
@@ -211,7 +220,7 @@ def run_struct(pid, tier, oname, profiles, extra=None, min_guard=None):
             guards.append(f"type {r['T']} profile {r['profile']}: no level completed")
     if len(per_type) != 94:
         guards.append(f'{len(per_type)} types explored, expected 94')
-    for prof in {p[0] for p in profiles}:
+    for prof in {p[0].split('!')[0] for p in profiles}:
         samples.append({'type': 'note', 'profile': prof,
                         'history': [list(o) for o in explore.ops_for('note', ['pitch'], [0], prof,
                                                                       explore.reduced_alphabet('note'))[:6]]})
@@ -231,7 +240,7 @@ def run_struct(pid, tier, oname, profiles, extra=None, min_guard=None):
            'samples': samples, 'exhaustive': True,
            'rule': 'BFS over histories of %s per type, budgets %s, dedup by object-graph canonical form' %
                    ([p[0] for p in profiles], [(p[1] if tier == 'quick' else p[2]) for p in profiles]),
-           'oracle_counters': dict(ostats), 'per_type': per_type,
+           'oracle_counters': dict(ostats), 'per_type': per_type, 'r1_check': r1,
            'depth_histogram': dict(collections.Counter(v[p]['depth'] for v in per_type.values() for p in v))}
     return run_.finish(cov, guard_errors=guards)
 
